@@ -237,7 +237,12 @@ func ruleRouterErrorStops(c *Ctx) {
 // ruleDerivedIds (R15): an id the server derives from client ids must be an injective function of
 // its free-text operands: one %s operand after a constant prefix is; two %s operands joined by a
 // separator that may occur inside the operands are not.
-func ruleDerivedIds(c *Ctx) {
+// ruleDerivedIdsRaw: only the "embeds raw" half (C20); injectivity belongs to C05.
+func ruleDerivedIdsRaw(c *Ctx) { c.derivedIds(false) }
+
+func ruleDerivedIds(c *Ctx) { c.derivedIds(true) }
+
+func (c *Ctx) derivedIds(injective bool) {
 	m := c.coroModel()
 	if m.Err != nil {
 		c.und("model", 0, m.Err.Error())
@@ -289,6 +294,9 @@ func ruleDerivedIds(c *Ctx) {
 			}
 		}
 		c.check(rawOK, "derived-id/"+name+"/embeds-raw", call.Pos(), "embeds each client id unaltered with %s: "+format, "derived id "+name+" does not embed each of its operands once, unaltered (%s): "+format)
+		if !injective {
+			continue
+		}
 		c.check(nS <= 1, "derived-id/"+name+"/injective", call.Pos(), "one free-text operand after a constant prefix: injective",
 			fmt.Sprintf("derived id %q joins %d free-text operands with a separator that may occur inside them: distinct registrations can share an id", format, nS))
 	}
